@@ -48,11 +48,8 @@ Section Soc.
     let objs1 := map (fun t => match t with (o, Some ids) => append_iris "attributedTo" (perm (missing ids (uniq actor_ids))) o | (o, None) => o end)
                      (combine objs attr_ids) in
     let a1 := set_elems "object" objs1 a in
-    (* missing attributedTo ids onto the actor property, if there is one *)
-    let a2 := match elems "actor" a1 with
-              | None => a1
-              | Some _ => fold_left (fun acc ids => match ids with Some l => append_iris "actor" (perm (missing actor_ids (uniq l))) acc | None => acc end) attr_ids a1
-              end in
+    (* missing attributedTo ids onto the actor property, which is created if the Create came without one (fix F25) *)
+    let a2 := fold_left (fun acc ids => match ids with Some l => append_iris "actor" (perm (missing actor_ids (uniq l))) acc | None => acc end) attr_ids a1 in
     a3 <-? lift (normalize_recipients perm a2) ;;
     _ <-? foreach (elems0 "object" a3) (fun e =>
             match e_type "object" e with
